@@ -477,9 +477,13 @@ class InvSim(AoefSim):
         if not changed:
             self.record(op, "not-applicable")
             return
-        text = json.dumps(doc, ensure_ascii=False)
+        # same layout as the writer's (compact separators), so a fault that
+        # swaps one identifier for another leaves the file size unchanged
+        text = json.dumps(doc, ensure_ascii=False, separators=(",", ":"))
         with open(self.abspath(p), "w", encoding="utf-8") as fp:
             fp.write(text)
+        if len(text.encode("utf-8")) == len(raw):
+            self.probes.hit("C04:fault-kept-file-size")
         state["faults"].append(f["kind"])
         self.faults_fired.hit(f"doc:{f['kind']}")
         self.record(op, "applied", doc=sha(text))
@@ -521,6 +525,10 @@ class InvSim(AoefSim):
             ("loadcheck", tuple(state["faults"]), oclass, closed, bool(broken))
         )
         self.checked_verdicts += 1
+        if state["faults"] and state.get("loaded_ok_before_fault"):
+            self.probes.hit("C04:faulted-load-after-earlier-successful-load")
+        if not state["faults"] and outcome == "value":
+            state["loaded_ok_before_fault"] = True
         if state["faults"]:
             self.probes.hit("C04:faulted-load-checked")
             if n_units >= 2:
@@ -1022,12 +1030,17 @@ def gen_ops(rng, cfg, seed_tag):
             ops.append({"op": "loadcheck", "path": p, "node": node(), "h": h()})
         elif pat == "fault_load":
             p = store(k)
+            if rng.random() < 0.5:
+                # the document was read successfully before it went bad
+                ops.append({"op": "loadcheck", "path": p, "node": node(), "h": h()})
             for _ in range(rng.choice([1, 1, 2, 3])):
                 ops.append({"op": "corrupt", "path": p,
                             "fault": draw_fault(rng, cfg["enabled_any"])})
             ops.append({"op": "loadcheck", "path": p, "node": node(), "h": h()})
         elif pat == "valid_fault":
             p = store(k)
+            if rng.random() < 0.3:
+                ops.append({"op": "loadcheck", "path": p, "node": node(), "h": h()})
             for _ in range(rng.choice([1, 2, 3])):
                 ops.append({"op": "corrupt", "path": p,
                             "fault": draw_fault(rng, cfg["enabled_valid"])})
@@ -1058,7 +1071,7 @@ def brief(op):
 
 def prune_candidates(spec):
     # arrangement specs are index-coupled to their target; only value pruning
-    return specs.prune_candidates(spec)
+    return specs._value_prune(spec)
 
 
 SIM = InvSim
@@ -1108,6 +1121,8 @@ CORE_PROBES = {
         "C04:faulted-load-checked>=2",
         "C04:valid-after-fault-checked",
         "C04:pristine-load-checked",
+        "C04:faulted-load-after-earlier-successful-load",
+        "C04:fault-kept-file-size",
         "C04:load-accepted",
         "C04:load-rejected",
         "C04:arrangement-checked",
